@@ -399,8 +399,9 @@ func checkQuiescent(l *lab.Lab, o *stressOpts, getsSinceClear, getsTotal, setsFa
 		if hm := int64(m.Hits() + m.Misses()); hm != getsSinceClear && !concurrentClear {
 			add("C17/hits-plus-misses", fmt.Sprintf("Hits+Misses=%d but %d Get calls completed since creation/the last Clear", hm, getsSinceClear), nil)
 		}
-		if d := int64(m.KeysAdded() - m.KeysEvicted()); d != int64(len(s.KeyCosts)) {
-			add("C17/keys-added-minus-evicted", fmt.Sprintf("KeysAdded-KeysEvicted=%d-%d=%d but %d keys are resident", m.KeysAdded(), m.KeysEvicted(), d, len(s.KeyCosts)), nil)
+		// "resident" is what the map holds (the capacity accounting agreeing with the map is C13's business)
+		if d := int64(m.KeysAdded() - m.KeysEvicted()); d != int64(len(s.Entries)) {
+			add("C17/keys-added-minus-evicted", fmt.Sprintf("KeysAdded-KeysEvicted=%d-%d=%d but %d keys are resident in the map (%d accounted by the policy)", m.KeysAdded(), m.KeysEvicted(), d, len(s.Entries), len(s.KeyCosts)), nil)
 		}
 		if d := int64(m.CostAdded() - m.CostEvicted()); d != s.MaxCost-rc {
 			add("C17/cost-added-minus-evicted", fmt.Sprintf("CostAdded-CostEvicted=%d but MaxCost-RemainingCost=%d", d, s.MaxCost-rc), nil)
